@@ -523,14 +523,14 @@ def oracle_partition(case, opts, scanned, groups, cache):
 # ------------------------------------------------------------------------------------------------
 # running
 
-def run_grp(cases, prefix):
+def run_grp(cases, prefix, timeout=420):
     """cases through the harness; the case stream travels in files because Transform::new spawns the transform
     program with inherited stdin/stdout"""
     fin, fout = prefix + ".in", prefix + ".out"
     with open(fin, "w") as f:
         for c in cases:
             f.write(json.dumps(c) + "\n")
-    p = core.run([GRP, fin, fout], timeout=900)
+    p = core.run([GRP, fin, fout], timeout=timeout)
     if p.returncode != 0:
         raise RuntimeError("grp exited %d: %s" % (p.returncode, p.stderr[-2000:]))
     outs = [json.loads(l) for l in open(fout).read().split("\n") if l]
@@ -607,8 +607,26 @@ class Engine:
                 where = os.path.join(self.ctx.scratch, "c%d" % idx)
                 cases.append(materialise(spec, where))
                 dirs.append(where)
-            outs = run_grp(cases, os.path.join(self.ctx.scratch, "b%d" % batch[0][0]))
-            mlines = core.run_lines(self.model, [o.get("model_in", "") for o in outs], timeout=900)
+            import subprocess
+            try:
+                outs = run_grp(cases, os.path.join(self.ctx.scratch, "b%d" % batch[0][0]))
+            except subprocess.TimeoutExpired:
+                # fclones::group_files does not return on some case of the batch: find it (one case at a time, 120 s each),
+                # report it as a hang with the spec as the failing input and go on with the others
+                keep_idx, outs = [], []
+                for k, case in enumerate(cases):
+                    try:
+                        p1 = run_grp([case], os.path.join(self.ctx.scratch, "b%d_%d" % (batch[0][0], k)), timeout=120)
+                        keep_idx.append(k)
+                        outs += p1
+                    except subprocess.TimeoutExpired:
+                        self.ctx.violation({"kind": "hang"}, "fclones::group_files did not return within 120 s on a generated tree "
+                                           "(transform %r)" % (batch[k][1]["opts"].get("transform"),),
+                                           {"spec": batch[k][1], "replay_cmd": "./check %s --replay <this file>" % self.ctx.prop}, found_input=True)
+                batch = [batch[k] for k in keep_idx]
+                cases = [cases[k] for k in keep_idx]
+                dirs = [dirs[k] for k in keep_idx]
+            mlines = core.run_lines(self.model, [o.get("model_in", "") for o in outs], timeout=900) if outs else []
             res = []
             for (idx, spec), case, out, m, where in zip(batch, cases, outs, mlines, dirs):
                 r = {"spec": spec, "case": case, "out": out, "model": m, "where": where}
